@@ -5,6 +5,7 @@ mod compute_suite;
 mod graph_suite;
 mod hash_suite;
 mod refsem;
+mod effects_suite;
 mod validate_suite;
 mod codec_suite;
 mod vmops_suite;
@@ -59,7 +60,7 @@ pub fn esc(s: &str) -> String {
 fn main() {
     let args: Vec<String> = std::env::args().collect();
     if args.len() < 2 {
-        eprintln!("usage: xrun <hash|graph|compute|bytecode|vmops|validate|codec> [--tier quick|thorough] [--only <case>]");
+        eprintln!("usage: xrun <hash|graph|compute|bytecode|vmops|validate|codec|effects> [--tier quick|thorough] [--only <case>]");
         std::process::exit(2);
     }
     let mut thorough = false;
@@ -103,6 +104,7 @@ fn main() {
         "vmops" => "vmops",
         "validate" => "validate",
         "codec" => "codec",
+        "effects" => "effects",
         _ => {
             eprintln!("unknown suite");
             std::process::exit(2);
@@ -120,6 +122,7 @@ fn main() {
         "vmops" => vmops_suite::run(&ctx),
         "validate" => validate_suite::run(&ctx),
         "codec" => codec_suite::run(&ctx),
+        "effects" => effects_suite::run(&ctx),
         _ => unreachable!(),
     }));
     if r.is_err() {
